@@ -6,6 +6,7 @@ import (
 	"fmt"
 	"sort"
 	"strings"
+	"time"
 
 	"github.com/codenotary/immudb/embedded/store"
 	"github.com/codenotary/immudb/embedded/tbtree"
@@ -98,13 +99,22 @@ func c05Body(r *simcore.Run) {
 				}
 				k := c05Keys[r.Intn(len(c05Keys))]
 				v := e.uniqueValue("w", 20)
-				tx.Set([]byte(k), nil, v)
+				var md *store.KVMetadata
+				if r.Pct(25) {
+					// an entry that is expired from the start: for every read with the default
+					// filters the key is absent, exactly as after a delete
+					md = store.NewKVMetadata()
+					md.ExpiresAt(time.Now().Add(-time.Hour))
+					r.Probe("c05-expired-entry-written")
+				}
+				tx.Set([]byte(k), md, v)
+				le := entryFromSpec([]byte(k), v, md)
 				hdr, err := tx.Commit(context.Background())
 				if err != nil {
-					e.failed([]ledEntry{{Key: []byte(k), Value: v}}, err)
+					e.failed([]ledEntry{le}, err)
 					continue
 				}
-				e.ack(hdr, []ledEntry{{Key: []byte(k), Value: v}})
+				e.ack(hdr, []ledEntry{le})
 			}
 		}))
 	}
@@ -279,7 +289,8 @@ func c05Body(r *simcore.Run) {
 			next[k] = v
 		}
 		for _, le := range lt.Entries {
-			if le.Deleted {
+			if le.Deleted || le.ExpiresAt != 0 {
+				// (expirable entries are only written already expired)
 				next[string(le.Key)] = nil
 			} else {
 				v := string(le.Value)
@@ -368,7 +379,7 @@ func (e *storeEnv) c05Program(task string, idx int) *c05Tx {
 			// the read set) before anything else is read or written
 			op := c05Op{Kind: "mark"}
 			op.Lo = e.st.LastCommittedTxID()
-			err := tx.MarkPrefixScanned(ctx, store.KeyReaderSpec{Prefix: []byte("k"), Filters: []store.FilterFn{store.IgnoreDeleted}})
+			err := tx.MarkPrefixScanned(ctx, store.KeyReaderSpec{Prefix: []byte("k"), Filters: []store.FilterFn{store.IgnoreDeleted, store.IgnoreExpired}})
 			op.Hi = e.st.LastCommittedTxID()
 			if err != nil {
 				tx.Cancel()
@@ -427,7 +438,7 @@ func (e *storeEnv) c05Program(task string, idx int) *c05Tx {
 				continue
 			}
 			op := c05Op{Kind: "scan", Seek: k, Desc: r.Bool(), IncS: r.Bool(), Max: 1 + r.Intn(5), Off: r.Pick(0, 0, 1, 2)}
-			rd, err := tx.NewKeyReader(store.KeyReaderSpec{Prefix: []byte("k"), SeekKey: []byte(k), DescOrder: op.Desc, InclusiveSeek: op.IncS, Offset: uint64(op.Off), Filters: []store.FilterFn{store.IgnoreDeleted}})
+			rd, err := tx.NewKeyReader(store.KeyReaderSpec{Prefix: []byte("k"), SeekKey: []byte(k), DescOrder: op.Desc, InclusiveSeek: op.IncS, Offset: uint64(op.Off), Filters: []store.FilterFn{store.IgnoreDeleted, store.IgnoreExpired}})
 			if err != nil {
 				tx.Cancel()
 				c05IdxViol(r, "tx-reader", "NewKeyReader inside a transaction failed: %v", err)
